@@ -653,6 +653,11 @@ impl TypeChecker {
 
             S::ExternalDefinition { var, ty, span, .. } => {
                 let ty = self.resolve_type(ctx, ty)?;
+                // The declaration is all we know about an external - `fn` means impure here, not
+                // "any purity" as it does for an annotation.
+                if let Type::Function(args, ret, Purity::Undefined) = self.find_type(ty) {
+                    self.find_node_mut(ty).ty = Type::Function(args, ret, Purity::Impure);
+                }
                 self.unify(*span, ctx, self.variables[*var].ty, ty)?;
             }
 
@@ -1492,18 +1497,22 @@ impl TypeChecker {
                     Type::Function(b_args, b_ret, b_purity),
                 ) => {
                     // TODO: Make sure there is one place this is checked.
-                    match (a_purity, b_purity) {
-                            (Purity::Undefined, _) |
-                            (_, Purity::Undefined) |
-                            (Purity::Pure, Purity::Pure) |
-                            (Purity::Impure, Purity::Impure) => (),
+                    // NOTE: An undefined purity takes on the purity it meets - otherwise which of
+                    // the two nodes survives the union decides if it's remembered at all.
+                    let purity = match (a_purity, b_purity) {
+                            (Purity::Undefined, purity) |
+                            (purity, Purity::Undefined) => purity,
+                            (Purity::Pure, Purity::Pure) => Purity::Pure,
+                            (Purity::Impure, Purity::Impure) => Purity::Impure,
                             (_, _) => return err_type_error!(
                                 self,
                                 span,
                                 TypeError::Impurity,
                                 "Cannot use impure function implementations for pure function declarations"
                             ),
-                        }
+                        };
+                    self.find_node_mut(a).ty = Type::Function(a_args.clone(), a_ret, purity.clone());
+                    self.find_node_mut(b).ty = Type::Function(b_args.clone(), b_ret, purity);
                     if a_args.len() != b_args.len() {
                         return err_type_error!(
                             self,
